@@ -903,6 +903,8 @@ def _pure_local_expr(e):
     when one of its names is re-bound or the object behind one of them is mutated"""
     for x in ast.walk(e):
         if isinstance(x, ast.Call):
+            if isinstance(x.func, ast.Name) and x.func.id == 'bytes' and not x.keywords and all(isinstance(a_, ast.Constant) for a_ in x.args):
+                continue          # bytes(3): an immutable constant
             if not (isinstance(x.func, ast.Name) and x.func.id in _PURE_BUILTINS and not x.keywords):
                 return False
         elif isinstance(x, ast.Attribute):
@@ -1687,10 +1689,17 @@ def _head_break_loops(fn):
             BODY
     """
     for w in _own_walk(fn):
-        if isinstance(w, ast.While) and not w.orelse and isinstance(w.test, ast.Constant) and w.test.value is True and w.body:
+        if isinstance(w, ast.While) and not w.orelse and w.body:
             h = w.body[0]
             if isinstance(h, ast.If) and not h.orelse and len(h.body) == 1 and isinstance(h.body[0], ast.Break):
-                w.test = _not_dm(h.test)
+                if isinstance(w.test, ast.Constant) and w.test.value is True:
+                    w.test = _not_dm(h.test)
+                else:
+                    # while A: if B: break; ...   ->   while A and not B: ...
+                    neg = _not_dm(h.test)
+                    left = list(w.test.values) if isinstance(w.test, ast.BoolOp) and isinstance(w.test.op, ast.And) else [w.test]
+                    right = list(neg.values) if isinstance(neg, ast.BoolOp) and isinstance(neg.op, ast.And) else [neg]
+                    w.test = ast.copy_location(ast.BoolOp(op=ast.And(), values=left + right), w.test)
                 w.body = w.body[1:] or [ast.copy_location(ast.Pass(), h)]
 
 
@@ -1703,9 +1712,11 @@ def normalize(tree, relpath=None):
     if relpath is not None and not os.environ.get('VERIF_NO_REFNORM'):
         _inline_new_constants(tree, relpath)
         _renest_methods(tree, relpath)
+        _partial_closures(tree)
         _inline_new_helpers(tree, relpath)
         _split_tuple_assign(tree)
     _fold_constants(tree)
+    _clip_spellings(tree)
     if not os.environ.get('VERIF_NO_N12'):
         _guard_form(tree)
     _unnegate(tree)
@@ -2220,6 +2231,79 @@ def _order_before(stmts, anchor):
 
 def _stmt_heads(st):
     return _head_fields(st)
+
+
+def _partial_closures(tree):
+    """N17b: a nested function used once, as `partial(g, a, b)`, whose leading parameters are named like the enclosing
+    function's own never-re-bound names a, b it is applied to, captures them: `partial(g, a, b)` -> `g`, parameters dropped.
+    (What is left of a closure that was made a method with its captured variables passed through functools.partial, once
+    N17 has put it back.)"""
+    for fn in [n for n in ast.walk(tree) if isinstance(n, (ast.FunctionDef, ast.AsyncFunctionDef))]:
+        nested = [g for g in fn.body if isinstance(g, (ast.FunctionDef, ast.AsyncFunctionDef))]
+        if not nested:
+            continue
+        loads, stores, declared = _name_counts(fn)
+        fparams = {a.arg for a in fn.args.args + fn.args.kwonlyargs + fn.args.posonlyargs}
+        for g in nested:
+            uses = [n for n in _own_walk(fn) if isinstance(n, ast.Name) and n.id == g.name and isinstance(n.ctx, ast.Load)]
+            if len(uses) != 1:
+                continue
+            calls = [c for c in _own_walk(fn) if isinstance(c, ast.Call) and ((isinstance(c.func, ast.Name) and c.func.id == 'partial')
+                                                                             or (isinstance(c.func, ast.Attribute) and c.func.attr == 'partial'))
+                     and c.args and c.args[0] is uses[0] and not c.keywords]
+            if len(calls) != 1:
+                continue
+            bound = calls[0].args[1:]
+            gp = g.args.args
+            if not bound or len(bound) > len(gp) or g.args.defaults or g.args.vararg or g.args.kwarg:
+                continue
+            ok = True
+            for a, p_ in zip(bound, gp):
+                own_stores = sum(1 for n in _own_walk(fn) if isinstance(n, ast.Name) and isinstance(a, ast.Name) and n.id == a.id
+                                 and not isinstance(n.ctx, ast.Load)) if isinstance(a, ast.Name) else 99
+                if not (isinstance(a, ast.Name) and a.id == p_.arg and a.id not in declared
+                        and ((a.id in fparams and own_stores == 0) or (a.id not in fparams and own_stores == 1))):
+                    ok = False
+                # the closure must not re-bind the captured name itself
+                if any(isinstance(n, ast.Name) and n.id == p_.arg and not isinstance(n.ctx, ast.Load) for n in ast.walk(g)):
+                    ok = False
+            if not ok:
+                continue
+            g.args.args = gp[len(bound):]
+            _ReplaceNode(calls[0], uses[0]).visit(fn)
+
+
+def _clip_spellings(tree):
+    """N28: `if a > b: a = b` -> `a = min(a, b)`;  `if a < b: a = b` -> `a = max(a, b)`  (a a plain name, b a name, constant or
+    attribute chain; the value kept on equality is `a` in both spellings)"""
+    for parent in ast.walk(tree):
+        for fld in ('body', 'orelse', 'finalbody'):
+            body = getattr(parent, fld, None)
+            if not (isinstance(body, list) and body and isinstance(body[0], ast.stmt)):
+                continue
+            for i, st in enumerate(body):
+                if not (isinstance(st, ast.If) and not st.orelse and len(st.body) == 1 and isinstance(st.body[0], ast.Assign)
+                        and len(st.body[0].targets) == 1 and isinstance(st.body[0].targets[0], ast.Name)
+                        and isinstance(st.test, ast.Compare) and len(st.test.ops) == 1):
+                    continue
+                a = st.body[0].targets[0].id
+                b = st.body[0].value
+                if not _simple_arg(b):
+                    continue
+                l, r, op = st.test.left, st.test.comparators[0], st.test.ops[0]
+                fn_ = None
+                if isinstance(l, ast.Name) and l.id == a and ast.dump(r) == ast.dump(b):
+                    fn_ = 'min' if isinstance(op, ast.Gt) else 'max' if isinstance(op, ast.Lt) else None
+                elif isinstance(r, ast.Name) and r.id == a and ast.dump(l) == ast.dump(b):
+                    fn_ = 'min' if isinstance(op, ast.Lt) else 'max' if isinstance(op, ast.Gt) else None
+                if fn_ is None:
+                    continue
+                new = ast.Assign(targets=[ast.Name(id=a, ctx=ast.Store())],
+                                 value=ast.Call(func=ast.Name(id=fn_, ctx=ast.Load()), args=[ast.Name(id=a, ctx=ast.Load()), b], keywords=[]))
+                for x in ast.walk(new):
+                    if isinstance(x, (ast.stmt, ast.expr)) and not hasattr(x, 'lineno'):
+                        ast.copy_location(x, st)
+                body[i] = ast.copy_location(new, st)
 
 
 def _renest_methods(tree, relpath):
